@@ -1,9 +1,12 @@
 (* Eco/Mattermost/Range.v — model of pkg/ecosystem/mattermost/range.go *)
 From Verif.Base Require Import Bytes GoNum Ord.
+From Verif.Gen Require Operators.
 From Verif.Eco Require Import RangeCore.
 
 (* constraintPattern ^(>=|<=|>|<|=)?(.+)$ : alternatives in source order *)
-Definition mattermost_ops : list bytes := [$">="; $"<="; $">"; $"<"; $"="].
+(* the list is generated from the Go source on every run (tools/gen -> Gen/Operators.v) *)
+Definition mattermost_ops : list bytes :=
+  Eval cbv delta [Verif.Gen.Operators.mattermost_ops] in Verif.Gen.Operators.mattermost_ops.
 
 Definition cfg : range_cfg := {|
   rc_split := split_fields;
